@@ -355,6 +355,40 @@ func ruleL7(p *Prog) *RuleResult {
 
 // ---- L2 ----
 
+// funcOrCallee returns f itself if pred(f) holds, otherwise the first function called from f (statically,
+// same package, up to two calls deep) for which it holds: the code an anchor names may have been moved into
+// a helper by an extract-function refactoring.
+func funcOrCallee(f *ssa.Function, pred func(*ssa.Function) bool) *ssa.Function {
+	if f == nil {
+		return nil
+	}
+	if pred(f) {
+		return f
+	}
+	seen := map[*ssa.Function]bool{f: true}
+	level := []*ssa.Function{f}
+	for depth := 0; depth < 2; depth++ {
+		var next []*ssa.Function
+		for _, h := range level {
+			for _, b := range h.Blocks {
+				for _, ins := range b.Instrs {
+					if c, ok := ins.(*ssa.Call); ok {
+						if g := c.Call.StaticCallee(); g != nil && g.Blocks != nil && !seen[g] && fnPkgPath(g) == fnPkgPath(f) {
+							seen[g] = true
+							if pred(g) {
+								return g
+							}
+							next = append(next, g)
+						}
+					}
+				}
+			}
+		}
+		level = next
+	}
+	return nil
+}
+
 // truthTable evaluates, for RUN in {false,true} and N in 0..8, whether block target is reachable
 // from the entry of f when branches on RUN-like and N-like conditions are decided and every other
 // branch is free.
@@ -452,6 +486,11 @@ func ruleL2(p *Prog) *RuleResult {
 		return res
 	}
 	isHasRunCall := func(v ssa.Value) bool {
+		if prm, ok := v.(*ssa.Parameter); ok {
+			// the predicate may be passed in: func headerSize(n uint64, hasRun bool)
+			b, isB := prm.Type().Underlying().(*types.Basic)
+			return isB && b.Kind() == types.Bool
+		}
 		c, ok := v.(*ssa.Call)
 		if !ok {
 			return false
@@ -467,7 +506,34 @@ func ruleL2(p *Prog) *RuleResult {
 			}
 			break
 		}
+		if prm, ok := v.(*ssa.Parameter); ok {
+			b, isB := prm.Type().Underlying().(*types.Basic)
+			return isB && b.Info()&types.IsInteger != 0
+		}
 		return lenOfField(v, "roaringArray.keys")
+	}
+	coef8 := func(l lin) bool {
+		if !l.ok {
+			return false
+		}
+		for sym, c := range l.t {
+			if c == 8 && (sym == "len(roaringArray.keys)" || strings.HasPrefix(sym, "p:")) {
+				return true
+			}
+		}
+		return false
+	}
+	headerTargets := func(f *ssa.Function) []*ssa.BasicBlock {
+		var out []*ssa.BasicBlock
+		for _, b := range f.Blocks {
+			if r, ok := b.Instrs[len(b.Instrs)-1].(*ssa.Return); ok && len(r.Results) == 1 {
+				e := &linEnv{p: p, vals: map[ssa.Value]lin{}, lens: map[ssa.Value]lin{}}
+				if coef8(e.eval(r.Results[0])) {
+					out = append(out, b)
+				}
+			}
+		}
+		return out
 	}
 	sites := []*l2site{
 		{
@@ -477,19 +543,7 @@ func ruleL2(p *Prog) *RuleResult {
 			},
 			isN: isKeysLen,
 			// offsets present <=> the returned size has coefficient 8 on N
-			target: func(f *ssa.Function) []*ssa.BasicBlock {
-				var out []*ssa.BasicBlock
-				for _, b := range f.Blocks {
-					if r, ok := b.Instrs[len(b.Instrs)-1].(*ssa.Return); ok {
-						e := &linEnv{p: p, vals: map[ssa.Value]lin{}, lens: map[ssa.Value]lin{}}
-						l := e.eval(r.Results[0])
-						if l.ok && l.t["len(roaringArray.keys)"] == 8 {
-							out = append(out, b)
-						}
-					}
-				}
-				return out
-			},
+			target: headerTargets,
 		},
 		{
 			fn: "(*roaring.roaringArray).writeTo",
@@ -535,7 +589,7 @@ func ruleL2(p *Prog) *RuleResult {
 				} else {
 					return false, false
 				}
-				if ph, ok := other.(*ssa.Phi); ok && ph.Comment == "isRunBitmap" {
+				if ph, ok := other.(*ssa.Phi); ok && isRunFlagPhi(ph) {
 					return true, bo.Op == token.EQL
 				}
 				return false, false
@@ -549,7 +603,7 @@ func ruleL2(p *Prog) *RuleResult {
 					break
 				}
 				ph, ok := v.(*ssa.Phi)
-				return ok && ph.Comment == "size"
+				return ok && isDecodedCountPhi(ph)
 			},
 			target: func(f *ssa.Function) []*ssa.BasicBlock {
 				var out []*ssa.BasicBlock
@@ -568,9 +622,22 @@ func ruleL2(p *Prog) *RuleResult {
 	_ = k
 	for _, s := range sites {
 		f := p.Func(s.fn)
+		if f == nil && strings.HasSuffix(s.fn, ".headerSize") {
+			// renamed or turned into a plain function: the size predictor of the header is whatever function
+			// serializedSizeInBytes / writeTo call whose result is 8 bytes per container on one path
+			for _, from := range []string{"(*roaring.roaringArray).serializedSizeInBytes", "(*roaring.roaringArray).writeTo"} {
+				if g := funcOrCallee(p.Func(from), func(h *ssa.Function) bool { return len(headerTargets(h)) > 0 && fname(h) != from }); g != nil {
+					f = g
+					break
+				}
+			}
+		}
 		if f == nil {
 			res.undecided(s.fn, "-", "anchor not found")
 			continue
+		}
+		if g := funcOrCallee(f, func(h *ssa.Function) bool { return len(s.target(h)) > 0 }); g != nil {
+			f = g
 		}
 		targets := s.target(f)
 		if len(targets) == 0 {
@@ -600,7 +667,7 @@ func ruleL2(p *Prog) *RuleResult {
 		for _, b := range f.Blocks {
 			for _, ins := range b.Instrs {
 				ph, ok := ins.(*ssa.Phi)
-				if !ok || ph.Comment != "isRunBitmap" {
+				if !ok || !isRunFlagPhi(ph) {
 					continue
 				}
 				okTie = true
@@ -640,6 +707,83 @@ func ruleL2(p *Prog) *RuleResult {
 		}
 	}
 	return res
+}
+
+// isRunFlagPhi: a []byte-valued phi one of whose incoming values is nil and another the result of a Next()
+// read (the reader's run-flag bitmap, whatever the variable is called).
+func isRunFlagPhi(ph *ssa.Phi) bool {
+	sl, ok := ph.Type().Underlying().(*types.Slice)
+	if !ok {
+		return false
+	}
+	if b, ok := sl.Elem().Underlying().(*types.Basic); !ok || b.Kind() != types.Uint8 {
+		return false
+	}
+	hasNil, hasRead := false, false
+	var walk func(v ssa.Value, d int)
+	walk = func(v ssa.Value, d int) {
+		if d > 4 {
+			return
+		}
+		switch x := v.(type) {
+		case *ssa.Const:
+			if x.IsNil() {
+				hasNil = true
+			}
+		case *ssa.Phi:
+			if x != ph || d == 0 {
+				for _, e := range x.Edges {
+					if e != ssa.Value(ph) {
+						walk(e, d+1)
+					}
+				}
+			}
+		case *ssa.Extract:
+			if c, ok := x.Tuple.(*ssa.Call); ok && c.Call.IsInvoke() && c.Call.Method.Name() == "Next" {
+				hasRead = true
+			}
+		}
+	}
+	walk(ph, 0)
+	return hasNil && hasRead
+}
+
+// isDecodedCountPhi: an integer phi that joins the two ways the reader obtains the container count
+// (cookie>>16 + 1 under the run cookie, ReadUInt32 otherwise).
+func isDecodedCountPhi(ph *ssa.Phi) bool {
+	b, ok := ph.Type().Underlying().(*types.Basic)
+	if !ok || b.Info()&types.IsInteger == 0 {
+		return false
+	}
+	hasRead, hasShift := false, false
+	var walk func(v ssa.Value, d int)
+	walk = func(v ssa.Value, d int) {
+		if d > 5 {
+			return
+		}
+		switch x := v.(type) {
+		case *ssa.Phi:
+			for _, e := range x.Edges {
+				if e != ssa.Value(ph) {
+					walk(e, d+1)
+				}
+			}
+		case *ssa.Convert:
+			walk(x.X, d+1)
+		case *ssa.BinOp:
+			if x.Op == token.SHR {
+				hasShift = true
+			}
+			walk(x.X, d+1)
+			walk(x.Y, d+1)
+		case *ssa.Extract:
+			if c, ok := x.Tuple.(*ssa.Call); ok && c.Call.IsInvoke() && c.Call.Method.Name() == "ReadUInt32" {
+				hasRead = true
+			}
+		}
+	}
+	walk(ph, 0)
+	return hasRead && hasShift
 }
 
 func presentWord(b bool) string {
@@ -744,8 +888,27 @@ func ruleL5(p *Prog) *RuleResult {
 		}
 	}
 	// offset increments in roaringArray.writeTo
-	if f := p.Func("(*roaring.roaringArray).writeTo"); f == nil {
-		res.undecided("(*roaring.roaringArray).writeTo|offsets", "-", "anchor not found")
+	findOff := func(f *ssa.Function) *ssa.Phi {
+		var off *ssa.Phi
+		for _, b := range f.Blocks {
+			for _, ins := range b.Instrs {
+				if c, ok := ins.(*ssa.Call); ok {
+					if callee := c.Call.StaticCallee(); callee != nil && callee.Name() == "PutUint32" && len(c.Call.Args) == 3 {
+						v := c.Call.Args[2]
+						if cv, ok := v.(*ssa.Convert); ok {
+							v = cv.X
+						}
+						if ph, ok := v.(*ssa.Phi); ok {
+							off = ph
+						}
+					}
+				}
+			}
+		}
+		return off
+	}
+	if f := funcOrCallee(p.Func("(*roaring.roaringArray).writeTo"), func(h *ssa.Function) bool { return findOff(h) != nil }); f == nil {
+		res.undecided("(*roaring.roaringArray).writeTo|offsets", "-", "the running offset of the offset header was not found in writeTo or its helpers")
 	} else {
 		// find the phi of the running offset: the value passed (converted) to PutUint32 inside a loop
 		var off *ssa.Phi
